@@ -281,8 +281,15 @@ def _picked(ctx, f):
         False: ("call", PP + "group_without_decoys",
                 (F1, P[p_tc], P[p_prot], P[p_rng]), ()),
     }
-    ok_g = all(norm_calls(prog, facts[fl]["groups"])
-               == norm_calls(prog, want_g[fl]) for fl in (True, False))
+    from ..tutil import expand_helpers, method_forms
+
+    def canon_g(t):
+        # a call of the small lookup helper and its hand-inlined body are
+        # the same thing
+        return norm_calls(prog, method_forms(expand_helpers(
+            prog, t, names={PP + "group_with_decoys"})))
+    ok_g = all(canon_g(facts[fl]["groups"]) == canon_g(want_g[fl])
+               for fl in (True, False))
     ctx.check(ok_g, "C15a-group-lookup", f,
               "protein groups come from group_with_decoys / "
               "group_without_decoys depending on the FASTA",
@@ -310,9 +317,9 @@ def _picked(ctx, f):
     for x in facts.values():
         m = x["rowmask"]
         ok_f = ok_f and m is not None and m[0] == "un" and m[1] == "~" \
-            and strip_w(m[2]) == (
-            "call", "pandas.isna",
-            (("sub", x["F2"], ("const", "mokapot protein group")),), ())
+            and method_forms(strip_w(m[2])) == (
+            "mcall", ("sub", x["F2"], ("const", "mokapot protein group")),
+            "isna", (), ())
     ctx.check(ok_f, "C15a-unmatched-removed-before-pick", f,
               "rows without a protein group are removed before the pick",
               f"rows kept: {show(fx['rowmask'], 120) if fx['rowmask'] else 'all'}"
